@@ -176,7 +176,7 @@ int prop_threads(Run& run) {
         std::atomic<uint64_t> clock{0};
         std::atomic<int> ready{0};
         std::atomic<bool> go{false}, done{false};
-        std::vector<ThreadLog> logs(nthreads + 1);
+        std::vector<ThreadLog> logs(nthreads + 2);
         std::vector<std::thread> threads;
         uint64_t tseed = rng.next();
         for (int t = 0; t < nthreads; ++t) {
@@ -236,19 +236,27 @@ int prop_threads(Run& run) {
                 }
             });
         }
-        // the unrelated policy: registered, updated, called, unregistered, again and again
-        std::thread updater([&] {
-            ThreadLog& lg = logs[nthreads];
-            Rng urng(tseed, 777);
+        // the unrelated policies: registered, updated, called, unregistered, again and again
+        // (half of the runs: two of them, each updated by its own thread)
+        IWorld* other2 = rng.chance(1, 2) ? find_world("P_b") : nullptr;
+        if (other2) {
+            other2->hard_reset();
+            other2->set_handler(H_THROW);
+        }
+        int nupdaters = other2 ? 2 : 1;
+        logs.resize(nthreads + nupdaters);
+        auto updater_body = [&](IWorld* ow, int slot, uint64_t useed) {
+            ThreadLog& lg = logs[slot];
+            Rng urng(tseed, useed);
             ready.fetch_add(1, std::memory_order_relaxed);
             while (!go.load(std::memory_order_relaxed))
                 sched_yield();
-            int k = 0;
+            int k = (int)useed;
             while (!done.load(std::memory_order_relaxed)) {
                 const Registry& r = oregs[k % 4];
                 uint64_t b = clock.fetch_add(1, std::memory_order_relaxed);
-                other->materialize(r);
-                UpdateResult u = other->update();
+                ow->materialize(r);
+                UpdateResult u = ow->update();
                 uint64_t e = clock.fetch_add(1, std::memory_order_relaxed);
                 lg.intervals.push_back({b, e});
                 ++lg.ops;
@@ -261,26 +269,32 @@ int prop_threads(Run& run) {
                             c2.tuple[i] = t[i];
                         c2.nvseed = urng.next();
                         choose_routes(urng, r, r.methods[0], c2, false);
-                        Outcome o = other->call(r, 0, c2);
+                        Outcome o = ow->call(r, 0, c2);
                         std::string want = ooracles[k % 4]->select(r.methods[0], t).str();
                         std::string got = outcome_class(r, 0, o);
                         ++lg.calls;
                         if (got != want && lg.mismatches.size() < 5)
-                            lg.mismatches.push_back("P_c (updated concurrently) " + call_json(r, 0, c2) + " expected " + want + " got " + got);
+                            lg.mismatches.push_back(std::string(ow->name()) + " (updated concurrently) " + call_json(r, 0, c2) + " expected " + want + " got " + got);
                     }
                 }
                 ++k;
                 if (urng.chance(1, 4))
                     sched_yield();
             }
-        });
-        while (ready.load(std::memory_order_relaxed) < nthreads + 1)
+        };
+        std::thread updater([&] { updater_body(other, nthreads, 777); });
+        std::thread updater2;
+        if (other2)
+            updater2 = std::thread([&] { updater_body(other2, nthreads + 1, 778); });
+        while (ready.load(std::memory_order_relaxed) < nthreads + nupdaters)
             sched_yield();
         go.store(true, std::memory_order_relaxed);
         for (auto& th : threads)
             th.join();
         done.store(true, std::memory_order_relaxed);
         updater.join();
+        if (other2)
+            updater2.join();
         set_stage("monitor");
         // evidence: calls, overlapping pairs actually observed
         long overlaps = 0, update_overlaps = 0;
@@ -296,7 +310,18 @@ int prop_threads(Run& run) {
                         ++overlaps;
                 }
             }
-        for (auto& iv : logs[nthreads].intervals) {
+        std::vector<std::pair<uint64_t, uint64_t>> upd_intervals = logs[nthreads].intervals;
+        if (other2)
+            upd_intervals.insert(upd_intervals.end(), logs[nthreads + 1].intervals.begin(), logs[nthreads + 1].intervals.end());
+        long updates_overlapping_updates = 0;
+        if (other2)
+            for (auto& a : logs[nthreads].intervals)
+                for (auto& b2 : logs[nthreads + 1].intervals)
+                    if (a.first <= b2.second && b2.first <= a.second) {
+                        ++updates_overlapping_updates;
+                        break;
+                    }
+        for (auto& iv : upd_intervals) {
             bool any = false;
             for (int a = 0; a < nthreads && !any; ++a)
                 for (auto& x : logs[a].intervals)
@@ -307,7 +332,7 @@ int prop_threads(Run& run) {
             update_overlaps += any;
         }
         bool stop = false;
-        for (int t = 0; t <= nthreads; ++t) {
+        for (int t = 0; t < nthreads + nupdaters; ++t) {
             run.evaluations += logs[t].calls + logs[t].resolves + logs[t].probes;
             run.count("calls", logs[t].calls);
             run.count("resolves", logs[t].resolves);
@@ -315,12 +340,14 @@ int prop_threads(Run& run) {
             run.count("erroring-calls", logs[t].errors);
             for (auto& mm : logs[t].mismatches)
                 if (!stop)
-                    stop = run.violation(std::string("C16:concurrent-result-differs-from-sequential") + (t == nthreads ? ":policy-updated-concurrently" : ""),
+                    stop = run.violation(std::string("C16:concurrent-result-differs-from-sequential") + (t >= nthreads ? ":policy-updated-concurrently" : ""),
                                          "{\"threads\":" + std::to_string(nthreads) + ",\"what\":" + jstr(mm) + ",\"worlds\":" + setup_json + "}");
         }
         run.count("threads", nthreads);
         run.count("overlapping-call-pairs-sampled", overlaps);
-        run.count("concurrent-updates-of-other-policy", (long)logs[nthreads].intervals.size());
+        run.count("concurrent-updates-of-other-policy", (long)upd_intervals.size());
+        run.count("runs-with-two-policies-updated-concurrently", other2 ? 1 : 0);
+        run.count("updates-overlapping-an-update-of-another-policy", updates_overlapping_updates);
         run.count("concurrent-updates-overlapping-calls", update_overlaps);
         if (overlaps > 0) {
             run.distinct.insert(rng.next());
